@@ -23,7 +23,9 @@ RULE = ("W-TOK token sequences (quick: V_full<=2 with/without preamble, V_small<
         "thorough: V_full<=3, V_small<=5); W-BYTES byte mutants of generated valid scripts "
         "(flip/insert/delete/replace from a hostile byte set, truncation at every offset, "
         "splices), each also as str and through parse_file for a sample; identifiers equal "
-        "to every global name of sievelib.commands found at run time; W-LONG (one dimension "
+        "to every global name of sievelib.commands found at run time; every command name "
+        "followed by each of 49 odd tokens (text: blocks with bare-CR line breaks, NUL / "
+        "invalid UTF-8 / lone CR in strings, malformed lists, stray brackets) in 6 templates; W-LONG (one dimension "
         "of an ordinary script at 255..259, 1023..1025, 4095..4097, 65535/6 items or octets, "
         "numbers of 9..20000 digits) through parse(bytes), parse(str) and parse_file; W-SCALE doubling "
         "families. Non-trivial = non-empty input; distinct = distinct input byte strings "
@@ -38,10 +40,11 @@ ASSUMPTIONS = [
 FLOORS = {
     "quick": {"monitor:parse.verdict_is_exactly_bool": 200000, "scale:families": 20,
               "bytes:mutants": 100000, "via:str": 1000, "via:file": 200, "long:cases": 400,
-              "via:bytearray": 2000, "via:debug": 2000},
+              "via:bytearray": 2000, "via:debug": 2000, "oddargs:cases": 15000},
     "thorough": {"monitor:parse.verdict_is_exactly_bool": 3000000, "scale:families": 20,
                  "bytes:mutants": 2000000, "via:str": 10000, "via:file": 1000,
-                 "long:cases": 400},
+                 "long:cases": 400, "oddargs:cases": 15000, "via:bytearray": 20000,
+                 "via:debug": 20000},
 }
 SHARD_TIMEOUT = {"quick": 600, "thorough": 3000}
 
@@ -72,6 +75,9 @@ def plan(tier, seed):
     for i, (s, e) in enumerate(split(ntrunc, 16)):
         shards.append({"w": "trunc", "n": e - s, "rs": seed * 7919 + i})
     shards.append({"w": "names", "rs": seed})
+    names = sorted(gen.SPEC) + ["foobar"]
+    for i, (s_, e_) in enumerate(split(len(names), 4)):
+        shards.append({"w": "oddargs", "names": names[s_:e_]})
     shards += pwork.plan_long(tier, seed)
     if tier == "thorough":
         for i in range(16):
@@ -171,6 +177,8 @@ def _run_shard(tier, shard, res: Result):
                 res.sample({"workload": "tok", "input": data, "outcome": str(o.verdict())}, 2)
     elif w == "long":
         run_long(shard, res)
+    elif w == "oddargs":
+        run_oddargs(shard, res)
     elif w == "bytes":
         run_bytes(shard, res)
     elif w == "trunc":
@@ -254,6 +262,30 @@ def run_bytes(shard, res):
             res.case(b"file:" + content)
     finally:
         os.unlink(tmp.name)
+
+
+ODD_TOKENS = [b"text:\r.", b"text:\rX\r.", b"text:\r\n.", b"text:\n.", b"text:\nX\n.", b"text:",
+              b"text:\n", b'"a\x00b"', b'"a\rb"', b'"\xff"', b'"\xc3"', b'""', b'"\\\\"', b'"\\"',
+              b'"', b":" + b"t" * 300, b":", b":9", b"1" * 30, b"1KK", b"0x10", b"-1", b"1.5",
+              b"[", b"[]", b'["a",]', b'["a" "b"]', b'[["a"]]', b"(", b"()", b"(true,)", b"{",
+              b"}", b",", b";", b"/*", b"*/", b"#", b"\\", b"@", b"\x00", b"\xef\xbb\xbf",
+              b"\xe2\x80\xa8", b"true", b"not", b"foobar", b"text:\xc3\xa9\n.",
+              b'"\xed\xb3\xbf"', b"text:\n\xff\n."]
+
+
+def run_oddargs(shard, res):
+    """every command name followed by one odd token (and by a normal argument, then the odd
+    token), as a command and as a test: the error paths that quote or measure the token"""
+    for nm in shard["names"]:
+        for variant in (nm, nm.upper()):
+            for t in ODD_TOKENS:
+                for tmpl in (b"%s %s;", b"%s %s\n;", b"if %s %s {}", b'%s "a" %s;',
+                             b"if %s :is %s {}", b"if anyof (%s %s) {}"):
+                    data = gen.ALL_EXT_PREAMBLE + b" " + tmpl % (variant.encode(), t)
+                    observe(data, res, "oddargs")
+                    res.case(data)
+                    res.count("oddargs:cases")
+    res.observe("oddargs:tokens", str(len(ODD_TOKENS)))
 
 
 def run_long(shard, res):
